@@ -786,7 +786,7 @@ static handler_t mod_extforward_Forwarded (request_st * const r, plugin_data * c
     used = j+1;
     offsets[used] = -1; /* mark end of last set of params */
 
-    while (j >= 4) { /*(param=value pairs)*/
+    while (j >= 3) { /*(param=value pairs)*/
         if (-1 == offsets[j]) { --j; continue; }
         do {
             j -= 3; /*(k, klen, v, vlen come in sets of 4)*/
